@@ -569,3 +569,83 @@ Proof.
   rewrite Hx. unfold submit_all. rewrite mapi_fst, map_length, seq_length. reflexivity.
 Qed.
 End ListThm.
+
+(* ---- PermutationAwareSynthesisPass: the reported mapping is the one the circuit was built for ---- *)
+Section PASThm.
+Variables (T C P : Type).
+Variable perms : list P.
+Variable idp : P.
+Variable lmulT : P -> T -> T.
+Variable rmul : T -> P -> T.
+Variable synth : nat -> T -> C.
+Variable score : C -> Z.
+Variable impl : C -> T -> Prop.          (* "circuit c implements t (within the inner pass's budget)" *)
+Hypothesis synth_ok : forall i t, impl (synth i t) t.
+Hypothesis lmulT_id : forall t, lmulT idp t = t.
+Hypothesis rmul_id : forall t, rmul t idp = t.
+
+Definition cand_ok (utry : T) (x : (P * P) * C) : Prop :=
+  impl (snd x) (lmulT (snd (fst x)) (rmul utry (fst (fst x)))).
+
+Lemma pas_candidates_targets : forall ip op utry pt,
+  In pt (pas_candidates T P perms idp lmulT rmul ip op utry) ->
+  snd pt = lmulT (snd (fst pt)) (rmul utry (fst (fst pt))).
+Proof.
+  intros ip op utry pt. unfold pas_candidates.
+  destruct ip, op; simpl.
+  - intros Hin. apply in_flat_map in Hin. destruct Hin as (pi & _ & Hin).
+    apply in_map_iff in Hin. destruct Hin as (po & <- & _). reflexivity.
+  - intros Hin. apply in_map_iff in Hin. destruct Hin as (pi & <- & _). simpl. rewrite lmulT_id. reflexivity.
+  - intros Hin. apply in_map_iff in Hin. destruct Hin as (po & <- & _). simpl. rewrite rmul_id. reflexivity.
+  - intros [<- | []]. simpl. rewrite lmulT_id, rmul_id. reflexivity.
+Qed.
+
+Lemma mapi_synth_ok : forall utry (l : list ((P * P) * T)) k,
+  (forall pt, In pt l -> snd pt = lmulT (snd (fst pt)) (rmul utry (fst (fst pt)))) ->
+  forall x, In x (mapi (fun i pt => (fst pt, synth i (snd pt))) k l) -> cand_ok utry x.
+Proof.
+  intros utry l. induction l as [|pt r IH]; intros k Hl x; simpl; [intros []|].
+  intros [<- | Hin].
+  - unfold cand_ok. simpl. rewrite <- (Hl pt (or_introl eq_refl)). apply synth_ok.
+  - apply (IH (S k)); [|assumption]. intros q Hq. apply Hl. right. assumption.
+Qed.
+
+Lemma pas_pick_in : forall l best, pas_pick C P score best l = best \/ In (pas_pick C P score best l) l.
+Proof.
+  induction l as [|x r IH]; intros best; simpl; [left; reflexivity|].
+  destruct (score (snd x) <? score (snd best)).
+  - destruct (IH x) as [-> | Hin]; [right; left; reflexivity | right; right; assumption].
+  - destruct (IH best) as [-> | Hin]; [left; reflexivity | right; right; assumption].
+Qed.
+
+Lemma pas_pick_least : forall l best y, In y (best :: l) -> score (snd (pas_pick C P score best l)) <= score (snd y).
+Proof.
+  induction l as [|x r IH]; intros best y; simpl.
+  - intros [<- | []]. lia.
+  - intros Hy. destruct (score (snd x) <? score (snd best)) eqn:E.
+    + destruct Hy as [<- | [<- | Hy]].
+      * specialize (IH x x (or_introl eq_refl)). lia.
+      * apply IH. left. reflexivity.
+      * apply IH. right. assumption.
+    + destruct Hy as [<- | [<- | Hy]].
+      * apply IH. left. reflexivity.
+      * specialize (IH best best (or_introl eq_refl)). lia.
+      * apply IH. right. assumption.
+Qed.
+
+(* the circuit returned by PAS implements PF^T . U . PI for the (PI, PF) it stores in the PassData,
+   and no other candidate scores strictly better *)
+Theorem pas_reported_mapping : forall ip op utry c pi pf,
+  pas T C P perms idp lmulT rmul synth score ip op utry = Some (c, pi, pf) ->
+  impl c (lmulT pf (rmul utry pi)).
+Proof.
+  intros ip op utry c pi pf. unfold pas.
+  pose proof (mapi_synth_ok utry (pas_candidates T P perms idp lmulT rmul ip op utry) 0%nat
+                (pas_candidates_targets ip op utry)) as Hall.
+  destruct (mapi _ 0%nat _) as [|x r]; [intros Hx; discriminate Hx|].
+  intros Hx. injection Hx as <- <- <-.
+  destruct (pas_pick_in r x) as [-> | Hin].
+  - apply (Hall x). left. reflexivity.
+  - apply (Hall _). right. assumption.
+Qed.
+End PASThm.
